@@ -1,6 +1,7 @@
 // client: gmlc::concurrency::TriggerVariable
 //   config = 0 | 1   (constructed inactive / active)
 //   ops: activate | trigger | wait | waitFor | waitAct | waitForAct | reset | isActive | isTriggered
+//        wtrig = write client datum d0, then trigger() | waitR / waitForR = wait() / wait_for(), then read d0 if true
 //        tspin   = `while (!tv.trigger()) yield();`  (a triggerer that insists; each attempt is its own call/ret)
 #include "gmlc/concurrency/TriggerVariable.hpp"
 
@@ -26,9 +27,10 @@ static verif::Result exec(const Script& sc, const verif::Config& cfg)
         verif::reg_name(&tv.activeLock, "activeLock");
         verif::reg_name(&tv.cv_trigger, "cv_trigger");
         verif::reg_name(&tv.cv_active, "cv_active");
+        long data0 = 0;  // client datum published by `wtrig`, read by `waitR` / `waitForR`
         std::vector<std::function<void()>> bodies;
         for (auto& ops : sc.threads) {
-            bodies.push_back([&tv, ops] {
+            bodies.push_back([&tv, &data0, ops] {
                 const std::chrono::milliseconds d(10);
                 for (auto& op : ops) {
                     if (op == "tspin") {
@@ -40,6 +42,27 @@ static verif::Result exec(const Script& sc, const verif::Config& cfg)
                                 break;
                             }
                             std::this_thread::yield();
+                        }
+                        continue;
+                    }
+                    // publication through trigger() / wait(): `wtrig` writes plain datum d0 and then calls trigger();
+                    // `waitR` / `waitForR` call wait() / wait_for() and read d0 when the call returned true
+                    if (op == "wtrig") {
+                        data0 = 1;
+                        verif::emit("pwr d0 1");
+                        CallScope c("trigger");
+                        c.ret(bs(tv.trigger()));
+                        continue;
+                    }
+                    if (op == "waitR" || op == "waitForR") {
+                        bool ok = false;
+                        {
+                            CallScope c(op == "waitR" ? "wait" : "waitFor");
+                            ok = (op == "waitR") ? tv.wait() : tv.wait_for(d);
+                            c.ret(bs(ok));
+                        }
+                        if (ok) {
+                            verif::emit("prd d0 " + std::to_string(data0));
                         }
                         continue;
                     }
@@ -106,8 +129,28 @@ static std::string pickw(Rng& r, const std::vector<std::string>& v)
 static Script gen(Rng& r, int size)
 {
     Script s;
-    int fam = r.below(12);
+    int fam = r.below(13);
     int nothers = 1 + r.below(2 + size);
+    if (fam == 12) {
+        // F6 publication: constructed active, nobody activates or resets; ONE thread writes the datum and triggers once,
+        // the others wait (timed or not) and read the datum when their wait returned true
+        s.config = "1";
+        std::vector<std::string> w;
+        if (r.chance(1, 2)) {
+            w.push_back(pickw(r, kObs));
+        }
+        w.push_back("wtrig");
+        s.threads.push_back(w);
+        for (int t = 0; t < nothers; ++t) {
+            std::vector<std::string> ops;
+            int n = 1 + r.below(3);
+            for (int i = 0; i < n; ++i) {
+                ops.push_back(r.chance(1, 2) ? "waitR" : "waitForR");
+            }
+            s.threads.push_back(ops);
+        }
+        return s;
+    }
     if (fam < 4) {
         // F1
         bool active = r.chance(1, 3);
@@ -258,6 +301,9 @@ int main(int argc, char** argv)
         parse("1;isActive,waitFor,reset,trigger,activate,waitFor,trigger,waitFor,reset"),
         // waiters against the events they wait for
         parse("1;wait;trigger"),
+        // publication of client data through trigger() / wait()
+        parse("1;wtrig;waitR;waitForR,waitForR,waitR"),
+        parse("1;isTriggered,wtrig;waitForR,waitForR,waitForR;waitR"),
         parse("1;wait,wait;waitFor;trigger"),
         parse("0;waitAct;activate"),
         parse("0;waitAct;waitForAct;waitAct;activate"),
